@@ -97,7 +97,7 @@ ExactChecks(r) ==
                    IN << <<"procedure", (ExactComparable(r.metric, r.alg) /\ ~run.tie) => mp = run.map>>,
                          <<"aligned", r.aligned = ApplyMapping(r.m, mp)>> >>
               [] r.kind = "greedyx" ->
-                   << <<"procedure", ~GreedyPATie(r.metric, r.m) => mp = GreedyPARun(r.metric, r.m)>>,
+                   << <<"procedure", ((r.metric = "cos" => CosComparable(r.m)) /\ ~GreedyPATie(r.metric, r.m)) => mp = GreedyPARun(r.metric, r.m)>>,
                       <<"aligned", r.aligned = ApplyMapping(r.m, mp)>> >>
               [] r.kind = "oraclex" ->
                    LET mask == [k \in 1..K |-> [f \in 1..F |-> r.m[r.field[k][f] + 1][f]]]
@@ -112,7 +112,7 @@ ExactNT(r) == /\ r.exc = "" /\ WellShaped(r.mapping, Len(r.m), Len(r.m[1]))
               /\ \E k \in 1..Len(r.m), f \in 1..Len(r.m[1]) : r.mapping[k][f] + 1 # k
               /\ ExactComparable(r.metric, r.alg)
               /\ CASE r.kind = "dhtvx" -> ~DHTVRun(r.metric, r.alg, r.m, Plan(r.stft, r.start, r.width, r.shift, r.main, r.sub)).tie
-                   [] r.kind = "greedyx" -> ~GreedyPATie(r.metric, r.m)
+                   [] r.kind = "greedyx" -> (r.metric = "cos" => CosComparable(r.m)) /\ ~GreedyPATie(r.metric, r.m)
                    [] OTHER -> TRUE
 
 (* ---- consist : blind alignment restores a frequency-consistent order (C16) ---- *)
